@@ -713,7 +713,7 @@ def run_spans(ck):
         w = min(changed, key=size_of)
         ck.violation({"property": PID, "kind": "ProcessRequest changes the request it is given: a retried insert stores different rows", "case": w,
                       "delivery": delivery_of(ck, w)})
-    elif mism:
+    elif mism and not set(mism) <= set(sv):         # a mismatch of a request the service-name oracle rejects is reported there, with its replay
         worst = min((byid[i] for i in mism), key=size_of)
         diag = sorted({QUIRKS[q] for (i, q) in tot["R"] if i == worst["id"]})
         ck.violation({"property": PID, "kind": "model/implementation disagree; the property's oracle still accepts the observations",
